@@ -930,6 +930,35 @@ class Analyzer:
             return None
         return self.len_of_place(f, st, p)
 
+    def _closure_env(self, f, st, cl):
+        """Facts about the variables a closure value captured, re-keyed to the closure's environment parameter: captured
+        variable k is `(*_1).k` in the body.  Only captures that cannot change between the creation of the closure and its calls
+        are passed on: shared borrows (the referent is frozen while borrowed) and copies of values with a single definition."""
+        ds = [d for d in f.defs_of(cl) if not f.blocks[d[0]]["cleanup"]]
+        if len(ds) != 1 or ds[0][1] == "term" or ds[0][2]["k"] != "assign" or ds[0][2]["rv"]["k"] != "aggregate" or ds[0][2]["rv"].get("agg") != "closure":
+            return {}
+        env = {}
+        for k, op in enumerate(ds[0][2]["rv"]["ops"]):
+            p = core.op_place(op)
+            if p is None or p["proj"]:
+                cv = self.const_operand_iv(op) if op.get("k") == "const" else None
+                if cv is not None:
+                    env[(1, (str(k),))] = cv
+                continue
+            src = p["local"]
+            sty = f.locals[src]["ty"]
+            if sty.get("k") == "ref" and sty.get("mut"):
+                continue   # captured by unique borrow: the closure may change it
+            sds = [d for d in f.defs_of(src) if not f.blocks[d[0]]["cleanup"]]
+            if len(sds) != 1:
+                continue
+            if src in self._mut_borrowed and src not in self._len_safe:
+                continue
+            for (l, path), iv in st.v.items():
+                if l == src and iv is not None and not (path and path[0] in ("#item", "#rem", "#eidx")):
+                    env[(1, (str(k),) + path)] = iv
+        return env
+
     def sub_of_operand(self, st, o, sub):
         p = core.op_place(o)
         if p is None:
@@ -1534,7 +1563,7 @@ class Analyzer:
                     it = self.sub_of_operand(st, t["args"][0], ("#item",)) if t["args"] else None
                     if it is not None and g.arg_count >= 2 and ty_range(g.locals[g.arg_count]["ty"]) is not None:
                         cargs[-1] = it
-                    self.call_local(g.path, cargs)
+                    self.call_local(g.path, cargs, self._closure_env(f, st, ap["local"]) or None)
         else:
             effects = []
         if t["target"] is None:
